@@ -83,6 +83,16 @@ def placeholder_texts():
     return out
 
 
+def unclosed_tag_texts():
+    out = []
+    for sep in ".-:_":
+        out.append("x <b " + sep.join("a" for _ in range(40)) + ", y")
+    out.append("x <b q=" + "-".join("a" for _ in range(40)) + ", y")
+    out.append("x <b " + " ".join("a-b.c=d-e" for _ in range(40)) + ", y")
+    out.append('see <ref name="n" www.example.org.uk.a.b.c.d.e.f.g.h.i.j.k.l.m.n.o.p.q.r.s.t.u.v.w.x.y.z, 1.2.3.4.5.6.7.8.9.10 and more')
+    return out
+
+
 def check_parse(ctx, text, mode):
     """Returns (complaints, root or None)."""
     ctx.start_page("Tt")
@@ -281,6 +291,9 @@ def main(run):
                 chunks.append(("tok", "L", (t1, t2), 4, True, MODES))
     # (b2) page text with the package's own placeholder code points inside each construct
     for t in placeholder_texts():
+        chunks.append(("texts", [t]))
+    # (b3) a start tag that is never closed, followed by runs that can be cut into attribute names / values in many ways
+    for t in unclosed_tag_texts():
         chunks.append(("texts", [t]))
     # (c) towers
     for p in TOWERS:
